@@ -169,7 +169,7 @@ pub async fn control_handler(w: Rc<World>, conn: usize, gated: bool, msg: Contro
     }
 }
 
-async fn handshake_handler(w: Rc<World>, plan: Rc<Plan>, h: v3::Handshake) -> Result<v3::HandshakeAck<St>, AppErr> {
+pub async fn handshake_handler(w: Rc<World>, plan: Rc<Plan>, h: v3::Handshake) -> Result<v3::HandshakeAck<St>, AppErr> {
     let conn = conn_of_client_id(&h.packet().client_id);
     let cfg = &plan.cfg;
     let c = h.packet();
@@ -231,8 +231,11 @@ pub fn connect_sig_v3(c: &codec::Connect) -> u64 {
     f.0
 }
 
-pub async fn run_server(w: Rc<World>, plan: Rc<Plan>) {
-    let cfg: SharedCfg = shared_cfg(&plan.cfg);
+/// Builds the v3 server factory from the plan (shared by the plain and the combined server).
+macro_rules! v3_factory {
+    ($w:expr, $plan:expr) => {{
+        let w: Rc<World> = $w;
+        let plan: Rc<Plan> = $plan;
 
     let (w1, p1) = (w.clone(), plan.clone());
     let hs = fn_factory_with_config(move |_: SharedCfg| {
@@ -270,7 +273,15 @@ pub async fn run_server(w: Rc<World>, plan: Rc<Plan>) {
         }
     });
 
-    let factory = v3::MqttServer::new(hs).control(ctl).protocol(proto).publish(publish);
+
+        v3::MqttServer::new(hs).control(ctl).protocol(proto).publish(publish)
+    }};
+}
+pub(crate) use v3_factory;
+
+pub async fn run_server(w: Rc<World>, plan: Rc<Plan>) {
+    let cfg: SharedCfg = shared_cfg(&plan.cfg);
+    let factory = v3_factory!(w.clone(), plan.clone());
     let svc = match ServiceFactory::<IoBoxed, SharedCfg>::create(&factory, cfg.clone()).await {
         Ok(s) => Pipeline::new(s),
         Err(e) => {
